@@ -545,6 +545,22 @@ def check_integration(case):
             for ctx in rig.exceptions:
                 classes.add("refused:" + type(ctx.get("exception")).__name__)
             del rig.exceptions[:]
+        if not vio:
+            # whatever happened, nothing may be left energised: buttons released, software flips released, every device
+            # disabled, ball search over - then 3 s for every software timer (ball-search hold times are <= 200 ms here)
+            try:
+                for swn in ("s_flip1", "s_flip2", "s_eos2", "s_flip3", "s_eos3", "s_flip4", "s_af1", "s_af2", "s_kb"):
+                    m.switch_controller.process_switch(swn, 0, logical=True)
+                for f in I_DEVS["flippers"]:
+                    if any(o[0] == "flip" and o[1] == f for o in case["ops"]):
+                        m.events.post("release_" + f)       # only the case's own software flips are released by hand
+                rig.advance(3.0)        # (devices stay as they are: with no button pressed no rule holds a coil)
+            except Exception:   # pylint: disable=broad-except
+                pass
+            hot = [n for n in I_COILS if getattr(m.coils[n].hw_driver, "state", None) == "enabled"]
+            if hot:
+                v("integration:coil-left-on", "3 s after every button and software flip was released and ball search had "
+                  "stopped, coil(s) %r are still enabled" % hot)
         if seen["rules"]:
             classes.add("hardware rule installed")
         if seen["calls"]:
